@@ -17,8 +17,16 @@ import StirVerif.C07.Model
     emx <k> <subset> <maxSeg> <zeroSeg0EndPlanes 0|1> <useSubsetSens 0|1> <n float ops> J <voxel indices…> L <image…>
                                                                       -> voxels J of the image after `update_estimate` (`emExplicit`:
                                                                          numerator and sensitivity from the explicit system of `mat`/`dat`)
+    `upd`, `eoi`, `post` with a section `C <number of set_up calls> <slot content>` (filter stream): the slot holds a user
+    filter object described in prefix notation — `u` a user filter (leaf), `t` ThresholdMinToSmallPositiveValueDataProcessor,
+    `c X Y` ChainedDataProcessor(X, Y), `n` a null member — and there is one `F` section per leaf `u` (in order of
+    application): what that leaf returned.  The model wraps the slot as `set_up` does (`Slots.setUpN`) and applies the
+    object (`updateEstimateS`, `endOfIterationS`); without `C` the slot holds a single user filter, set up once.
+    flt C 0 <content> L <image…> F <leaf output…> …                   -> `Filt.apply` of the described object (no `set_up`)
+    dvt Y <numerator viewgram…> D <denominator viewgram…>             -> `divideAndTruncate` (both branches near a threshold)
     Floats are C99 hex floats, parsed exactly; answers are exact rationals `p/q` (or inf, -inf, nan); a voxel whose
     division is within 2^-20 (relative) of the threshold of `stir::divide` is answered as `a|b` (both branches), a voxel
+    whose filtered value is below FLT_MIN (a denormal float) as `q~e` (absolute error bound e), a voxel
     whose quotient is non-zero / 0 as `*` (anything goes: outside the property, and -ffast-math territory). -/
 namespace Driver.C07
 open StirVerif.C07
@@ -73,7 +81,7 @@ def fmtImg (l : List Rat) : String := " ".intercalate (l.map fmtRat)
 /-- split the tokens after the op header into tagged sections -/
 def sections (toks : List String) : List (String × List String) :=
   let isTag (t : String) := t == "L" || t == "G" || t == "S" || t == "P" || t == "F" || t == "V" ||
-    t == "Y" || t == "A" || t == "N" || t == "J"
+    t == "Y" || t == "A" || t == "N" || t == "J" || t == "C" || t == "D"
   let rec go (toks : List String) (cur : Option (String × List String)) (acc : List (String × List String)) :=
     match toks with
     | [] => (match cur with | some (t, l) => (t, l.reverse) :: acc | none => acc).reverse
@@ -89,6 +97,38 @@ def getVec (secs : List (String × List String)) (tag : String) : Option (List R
   match secs.find? (·.1 == tag) with
   | none => none
   | some (_, l) => l.mapM parseHex
+
+/-- all sections with this tag, in order -/
+def getVecs (secs : List (String × List String)) (tag : String) : Option (List (List Rat)) :=
+  (secs.filter (·.1 == tag)).mapM fun p => p.2.mapM parseHex
+
+/-- a slot content in prefix notation (`u`, `t`, `n`, `c X Y`); leaves take their outputs from `fs` in order.
+    Returns the object, the rest of the tokens and the unused leaf outputs. -/
+def parseFilt : Nat → List String → List Img → Option (Filt × List String × List Img)
+  | 0, _, _ => none
+  | _ + 1, "u" :: r, o :: fs => some (.user (fun _ => o), r, fs)
+  | _ + 1, "t" :: r, fs => some (.threshold, r, fs)
+  | _ + 1, "n" :: r, fs => some (.null, r, fs)
+  | fuel + 1, "c" :: r, fs =>
+    match parseFilt fuel r fs with
+    | some (a, r1, fs1) =>
+      match parseFilt fuel r1 fs1 with
+      | some (b, r2, fs2) => some (.chain a b, r2, fs2)
+      | none => none
+    | none => none
+  | _, _, _ => none
+
+/-- number of user leaves of a description -/
+def countLeaves (toks : List String) : Nat := (toks.filter (· == "u")).length
+
+/-- the `C` section: number of `set_up` calls and the object, built with the leaf outputs `fs` (all must be used) -/
+def parseSlot (secs : List (String × List String)) (fs : List Img) : Option (Nat × Filt) :=
+  match secs.find? (·.1 == "C") with
+  | some (_, n :: desc) =>
+    match n.toNat?, parseFilt (desc.length + 1) desc fs with
+    | some n', some (f, [], []) => some (n', f)
+    | _, _ => none
+  | _ => none
 
 structure St where
   nvox : Nat := 0
@@ -144,10 +184,18 @@ def near (x t : Rat) : Bool := absR (absR x - t) ≤ t / 1048576
 
 /-- answers for `upd`: the model's voxel values, with both branches of `stir::divide` where the comparison with the
     float threshold `max(num)*small_num` cannot be decided from exact arithmetic -/
-def answerUpd (c : Cfg) (k : Nat) (img g s pg : Img) : String :=
-  let res := updateEstimate c k img
+def answerUpdWith (c : Cfg) (k : Nat) (res : List Ext) (filtered : Bool) (img1 g s pg : Img) : String :=
   let small := smallValue g (divideSmallNum c.map)
-  let img1 := interUpdateFiltered c k img
+  -- gradual underflow: a filtered (thresholded) voxel value below FLT_MIN = 2^-126 is a denormal float in the
+  -- implementation, i.e. the model's exact value rounded with an ABSOLUTE error of up to 2^-149; the update factor `u`
+  -- amplifies it: the answer `q~e` accepts |x - q| <= e = |u| 2^-149 + 2^-148
+  let errs := zip4With (fun lam gj sj pj =>
+      if filtered && lam != 0 && decide (absR lam < pow2 (-126)) then
+        let u := divide1 small gj (denom c.map c.numSubsets pj sj)
+        match (if k != 1 then thresholdUpperLower c.minRel c.maxRel u else u) with
+        | .fin uq => some (absR uq * pow2 (-149) + pow2 (-148))
+        | _ => none
+      else none) img1 g s pg
   let alt := zip4With (fun lam gj sj pj =>
       let d := denom c.map c.numSubsets pj sj
       if small > 0 ∧ (near d small ∨ near gj small) then
@@ -163,12 +211,39 @@ def answerUpd (c : Cfg) (k : Nat) (img g s pg : Img) : String :=
       match divide1 small gj (denom c.map c.numSubsets pj sj) with
       | .fin _ => false
       | _ => true) img1 g s pg
-  let parts := ((res.zip alt).zip wild).map fun ((r, a), w) =>
+  let parts := (((res.zip alt).zip wild).zip errs).map fun (((r, a), w), e) =>
+    let suffix := match e with
+      | some e' => "~" ++ fmtRat e'
+      | none => ""
     if w then "*" else
     match a with
-    | some o => fmtExt r ++ "|" ++ fmtExt o
-    | none => fmtExt r
+    | some o => fmtExt r ++ suffix ++ "|" ++ fmtExt o ++ suffix
+    | none => fmtExt r ++ suffix
+  if errs.length ≠ res.length then "bad-size" else
   " ".intercalate parts
+
+def answerUpd (c : Cfg) (k : Nat) (img g s pg : Img) : String :=
+  answerUpdWith c k (updateEstimate c k img)
+    (c.interUpdateFilter.isSome && decide (c.interUpdateInterval > 0 ∧ k % c.interUpdateInterval = 0))
+    (interUpdateFiltered c k img) g s pg
+
+/-- `upd` of the filter stream: the object's slots after the `set_up` calls -/
+def answerUpdS (c : Cfg) (sl : Slots) (k : Nat) (img g s pg : Img) : String :=
+  answerUpdWith c k (updateEstimateS c sl k img)
+    (!sl.interUpdate.isNull && decide (c.interUpdateInterval > 0 ∧ k % c.interUpdateInterval = 0))
+    (slotFiltered c.interUpdateInterval sl.interUpdate k img) g s pg
+
+/-- answers for `dvt`: `divideAndTruncate`, with both branches where a comparison with a float threshold
+    (`max(num)*SMALL_NUM`, `max_quotient*denom`) cannot be decided from exact arithmetic -/
+def answerDvt (num den : Img) : String :=
+  let small := dtSmallValue num
+  let res := divideAndTruncate num den
+  let alts := List.zipWith (fun y d =>
+      let a1 : List Rat := if small > 0 ∧ near y small then [0, if y > maxQuotient * d then maxQuotient else y / d] else []
+      let a2 : List Rat := if d ≠ 0 ∧ y > 0 ∧ near y (absR (maxQuotient * d)) then [maxQuotient, y / d] else []
+      a1 ++ a2) num den
+  if res.length ≠ alts.length then "bad-size" else
+  " ".intercalate ((res.zip alts).map fun (r, a) => "|".intercalate ((r :: a).map fmtRat))
 
 /-- answers for `uimg`: the voxels of the model's update image, with both branches of `stir::divide` near its threshold -/
 def answerUimg (c : Cfg) (k : Nat) (g s pg : Img) : String :=
@@ -215,11 +290,33 @@ def stepLine (st : St) (line : String) : St × String :=
     | some img, some g, some s =>
       let hasP := (secs.find? (·.1 == "P")).isSome
       let hasF := (secs.find? (·.1 == "F")).isSome
+      let hasC := (secs.find? (·.1 == "C")).isSome
       match (if hasP then getVec secs "P" else some (g.map fun _ => 0)), (if hasF then (getVec secs "F").map some else some none) with
       | some pg, some fu =>
         if img.length ≠ st.nvox ∨ g.length ≠ st.nvox ∨ s.length ≠ st.nvox ∨ pg.length ≠ st.nvox then (st, "bad-size")
         else if subsetNum k' st.startSubset st.numSubsets ≠ N subset then (st, "bad-subset")
         else if (st.map != .none) != hasP then (st, "prior-data-mismatch")
+        else if hasC then
+          -- filter stream: the slot's object, wrapped by `set_up` as often as it was called; leaf outputs are given
+          -- exactly when the filter fires
+          let fires := st.iuf > 0 ∧ k' % st.iuf = 0
+          let firesI := st.iif > 0 ∧ k' % st.iif = 0
+          let desc := ((secs.find? (·.1 == "C")).map (·.2.drop 1)).getD []
+          match getVecs secs "F" with
+          | none => (st, "bad-float")
+          | some fs =>
+            if fs.any (·.length ≠ st.nvox) then (st, "bad-size")
+            else if decide firesI != (eoiFollows == "1") then (st, "inter-iteration-filter-mismatch")
+            else if fs.length ≠ (if fires then countLeaves desc else 0) then (st, "inter-update-filter-mismatch")
+            else
+              -- (when it does not fire the leaves are never asked: any data will do)
+              let fs' := if fires then fs else List.replicate (countLeaves desc) []
+              match parseSlot secs fs' with
+              | none => (st, "bad-slot")
+              | some (n, f) =>
+                let c := st.cfg g s pg none none
+                let sl := Slots.setUpN c n { interUpdate := f }
+                (st, answerUpdS c sl k' img g s pg)
         else
           -- the filter must have fired exactly when the model says it fires
           let fires := st.iuf > 0 ∧ k' % st.iuf = 0
@@ -234,6 +331,24 @@ def stepLine (st : St) (line : String) : St × String :=
   | "eoi" :: k :: rest =>
     let secs := sections rest
     let k' := N k
+    let hasC := (secs.find? (·.1 == "C")).isSome
+    if hasC then
+      match getVec secs "L", getVecs secs "F" with
+      | some img, some fs =>
+        let fires := st.iif > 0 ∧ k' % st.iif = 0
+        let desc := ((secs.find? (·.1 == "C")).map (·.2.drop 1)).getD []
+        if !decide fires then (st, "inter-iteration-filter-mismatch")
+        else if img.length ≠ st.nvox ∨ fs.any (·.length ≠ st.nvox) then (st, "bad-size")
+        else if fs.length ≠ countLeaves desc then (st, "inter-iteration-filter-mismatch")
+        else match parseSlot secs fs with
+          | none => (st, "bad-slot")
+          | some (n, f) =>
+            let c := st.cfg [] [] [] none none
+            let sl := Slots.setUpN c n { interIteration := f }
+            -- (`last := 0`: no sub-iteration has number 0, the post-filter is the business of `post`)
+            (st, fmtImg (endOfIterationS c sl 0 k' img))
+      | _, _ => (st, "bad-float")
+    else
     match getVec secs "L", getVec secs "F" with
     | some img, some fi =>
       let fires := st.iif > 0 ∧ k' % st.iif = 0
@@ -244,6 +359,25 @@ def stepLine (st : St) (line : String) : St × String :=
     let secs := sections rest
     let k' := N k
     let last' := N last
+    let hasC := (secs.find? (·.1 == "C")).isSome
+    if hasC then
+      match getVec secs "L", getVecs secs "F" with
+      | some img, some fs =>
+        let desc := ((secs.find? (·.1 == "C")).map (·.2.drop 1)).getD []
+        if (k' == last') != (fired == "1") then (st, "post-filter-mismatch")   -- called exactly at the last sub-iteration
+        else if img.length ≠ st.nvox ∨ fs.any (·.length ≠ st.nvox) then (st, "bad-size")
+        else if fs.length ≠ (if fired == "1" then countLeaves desc else 0) then (st, "post-filter-mismatch")
+        else
+          let fs' := if fired == "1" then fs else List.replicate (countLeaves desc) []
+          match parseSlot secs fs' with
+          | none => (st, "bad-slot")
+          | some (n, f) =>
+            -- the inter-iteration filter is switched off in the state of this operation (`L` is the iterate after it)
+            let c := { st.cfg [] [] [] none none with interIterationInterval := 0 }
+            let sl := Slots.setUpN c n { post := f }
+            (st, fmtImg (endOfIterationS c sl last' k' img))
+      | _, _ => (st, "bad-float")
+    else
     match getVec secs "L" with
     | some img =>
       let hasF := (secs.find? (·.1 == "F")).isSome
@@ -301,6 +435,20 @@ def stepLine (st : St) (line : String) : St × String :=
     let I (s : String) : Int := s.toInt?.getD 0
     let y := Sym.effective (I v) (d90 == "1") (d180 == "1") (sw == "1") (tof == "1") (phi == "1")
     (st, if setUpAcceptsSubsets y (I minv) (I maxv) (I maxseg) (I ns) then "ok" else "err")
+  | "flt" :: rest =>
+    let secs := sections rest
+    match getVec secs "L", getVecs secs "F" with
+    | some img, some fs =>
+      if fs.any (·.length ≠ img.length) then (st, "bad-size")
+      else match parseSlot secs fs with
+        | some (_, f) => (st, fmtImg (f.apply img))
+        | none => (st, "bad-slot")
+    | _, _ => (st, "bad-float")
+  | "dvt" :: rest =>
+    let secs := sections rest
+    match getVec secs "Y", getVec secs "D" with
+    | some y, some d => if y.length ≠ d.length then (st, "bad-size") else (st, answerDvt y d)
+    | _, _ => (st, "bad-float")
   | ["init", "0", nv] => (st, fmtImg (initialData (N nv) .zeros))
   | ["init", "1", nv] => (st, fmtImg (initialData (N nv) .ones))
   | "init" :: "file" :: nv :: rest =>
